@@ -38,6 +38,14 @@ def _mods():
     return pendulum, py, rs
 
 
+# local (start, end) times of day for the same-offset pairs: chosen so that the UTC calendar date of one or both
+# endpoints differs from the local one (offsets +05:30, +01:00/+02:00, -05:00/-04:00)
+SHIFTING_TIMES = (((5, 0, 0, 0), (6, 0, 0, 0)), ((1, 15, 0, 0), (20, 0, 0, 5)), ((12, 0, 0, 0), (0, 30, 0, 0)),
+                  ((22, 0, 0, 7), (23, 30, 0, 0)), ((0, 0, 0, 0), (0, 0, 0, 0)))
+SAME_OFFSET_PAIRS = (("Asia/Kolkata", "Asia/Colombo"), ("Asia/Kolkata", 19800), (19800, "Asia/Kolkata"),
+                     ("Europe/Paris", "Europe/Berlin"), ("America/New_York", "America/Toronto"))
+
+
 def comp_tuple(p):
     return (p.years, p.months, p.days, p.hours, p.minutes, p.seconds, p.microseconds)
 
@@ -217,6 +225,24 @@ def run_shard(shard):
                         iv_pair(acc, mods, kind, fa, fb, z)
         acc.sample({"interval_pairs_from": list(calref.civil_from_days(shard["n0"])),
                     "kinds": [k for k, _ in shard["kinds"]]})
+    elif k == "cross-same":
+        # differently NAMED zones that share their offset: nothing but the names tells the helper to go through UTC
+        for n in range(shard["n0"], shard["n1"], shard["step"]):
+            da = calref.civil_from_days(n)
+            acc.c["states"] += 1
+            for e in range(n, n + shard["span"] + 1, shard["estep"]):
+                db = calref.civil_from_days(e)
+                for ta, tb in SHIFTING_TIMES:
+                    for za, zb in shard["pairs"]:
+                        sa = tzref.zone(za).solve(tzref.wall_us(tuple(da) + ta) // US)
+                        sb = tzref.zone(zb).solve(tzref.wall_us(tuple(db) + tb) // US)
+                        if len(sa) != 1 or len(sb) != 1:
+                            continue
+                        ia, ib = sa[0] * US + ta[3], sb[0] * US + tb[3]
+                        if calref.civil_from_days(sa[0] // 86400) != da or calref.civil_from_days(sb[0] // 86400) != db:
+                            acc.c["nontrivial"] += 1     # the UTC date differs from the local date
+                        cross_zone_pair(acc, mods, za, ia, zb, ib)
+        acc.sample({"same_offset_pairs": [list(map(str, p)) for p in shard["pairs"]], "from": list(calref.civil_from_days(shard["n0"]))})
     elif k == "cross":
         S = shard["states"]
         for za, ia in shard["left"]:
@@ -268,6 +294,9 @@ def plan(tier, seed):
     for s in range(d(2019, 1, 1), d(2023, 1, 1), 48):
         shards.append({"kind": "iv", "n0": s, "n1": s + 48, "step": 1 if thorough else 5, "span": 800,
                        "estep": 1 if thorough else 7, "kinds": kinds})
+    for s in range(d(2019, 1, 1), d(2023, 1, 1), 48):
+        shards.append({"kind": "cross-same", "n0": s, "n1": s + 48, "step": 1 if thorough else 3, "span": 430,
+                       "estep": 1 if thorough else 5, "pairs": [list(p) for p in SAME_OFFSET_PAIRS]})
     S = _cross_states(seed)
     shards += [{"kind": "cross", "left": ch, "states": S} for ch in seeds.chunks(S, 8)]
     plans = [({"ext": 1, "tz": "sys"}, shards)]
@@ -276,7 +305,7 @@ def plan(tier, seed):
         plans.append(({"ext": 0, "tz": "sys"}, iv_only))
     else:
         plans.append(({"ext": 0, "tz": "sys"}, [s for s in shards if s["kind"] == "iv"][::6] +
-                      [s for s in shards if s["kind"] == "cross"]))
+                      [s for s in shards if s["kind"] == "cross"] + [s for s in shards if s["kind"] == "cross-same"][::3]))
     return plans
 
 
@@ -291,7 +320,9 @@ def evidence(m, tier, seed):
                 "full 9-year windows 1896-1904, 1996-2004, 2096-2104, years 2-5, 9990-9994) and the end 0..800 days "
                 "later x 4 time-of-day borrow patterns, both back ends on native arguments; Interval level: a "
                 "sub-lattice of the same pairs as Date/naive/UTC/+05:30/same-zone values under both back ends; "
-                "different-zone pairs over a 42-state set; non-trivial = pairs with a day borrow (end day < start day)",
+                "different-zone pairs over a 42-state set; differently named zones sharing their offset (Kolkata/Colombo/"
+                "+05:30, Paris/Berlin, New_York/Toronto): start days of 2019-2022 x ends 0..430 days later x 5 "
+                "time-of-day pairs whose UTC date differs from the local date; non-trivial = pairs with a day borrow (end day < start day)",
         "exhaustive": True,
         "skipped_out_of_scope_zone_pair": c["skipped_out_of_scope_zone_pair"],
     }, "assumptions": ["the wall-clock addition model of C04 defines 'added back to a'"]}
